@@ -77,4 +77,9 @@ META = {
         "level_text": "Exploration: generated programs of point ops, batches and bounded forward/reverse iterators over a byte alphabet containing 0x00 and 0xFF run on every backend and on a sorted-map model; all backends must agree with the model after every step, batches must be atomic, ordered and unusable after Write/Close, empty keys and nil values must be rejected, and a prefixed view (also nested, also with 0xFF-terminated prefixes) must never show or modify the pre-seeded keys outside its namespace.",
         "level_note": "Trusted: Go toolchain, rapid, goleveldb as shipped. Programs never write while an iterator is open and never call Key/Value/Next on an invalid iterator (caller errors of the contract). GoLevelDB durability/fsync is not modelled.",
     },
+    "C05": {
+        "technique": "fault enumeration inside generated histories: every crash cut of the journal of one generated operation, recovered and compared with the model",
+        "level_text": "Fault enumeration: for each generated history the storage seam records the physical writes of one operation (commit, deletion of old versions, rollback, import commit, fast-index build) and EVERY boundary between them is turned into a crash image that is reopened with the index on and off, compared with the model's before/after state on all read paths, and on which the operation is repeated. Exhaustive per history, sampled across histories (thousands of cuts per quick run).",
+        "level_note": _TB + "Assumes atomic ordered batch writes (as the property states). Open finding F7: at cuts strictly inside a split SaveVersion / LoadVersionForOverwriting / DeleteVersionsTo the known symptoms are tolerated and counted, but every version the operation was not touching must still be fully readable; cuts 0 and |J|, import and index-build cuts are checked in full. F18 (multi-batch import) likewise.",
+    },
 }
